@@ -10,7 +10,8 @@ START_WORKING is followed by get_work calls until EMPTY.  Trace: locs 0 head,
 at loc k+1, get_work ret at loc 100+k+1 (value = item handed out, 0 = EMPTY).
 
 Fast-forward: a marked push that returns START_WORKING is followed by one extra
-step of the fresh worker (event  tid 2 919 FFAMT) which adds FFAMT = 2^32 - 3
+step of the fresh worker (event  tid 2 919 FFAMT) which adds FFAMT = 2^k - 3
+(op (10 + j, item): k = FF_K[j]; op (2, item) = (10, item): k = 32)
 to both in_count and out_count -- the state FFAMT rounds of "push one more, get
 one" by that worker reach through the public API -- so that sessions in which
 in_count passes 2^32 are exercised (family fast_forward of gen_cases)."""
@@ -23,6 +24,18 @@ THEOREMS = ["wq_one_worker", "wq_each_item_once", "wq_empty_means_drained",
 PUSH = 1
 PUSH_FF = 2        # push; if told START_WORKING: both counters += FFAMT before the first get_work
 FFAMT = 2 ** 32 - 3
+FF_K = (32, 20, 16, 31, 24, 8, 12, 36)     # table entry j adds 2^FF_K[j] - 3 (ffamt in coq/WorkQueue.v, rt/h_wq.c)
+
+
+def ffop(j):
+    return 10 + j
+
+
+def rand_mark(rng, p=0.2):
+    """op code of a random push: marked with probability p (half of them the old code 2)"""
+    if rng.random() >= p:
+        return PUSH
+    return PUSH_FF if rng.random() < 0.5 else ffop(rng.randrange(len(FF_K)))
 FF_STEPS = 1
 LOC_IN = 2
 PUSH_STEPS = 4     # add_and_fetch, next := NULL, exchange tail, link
@@ -167,12 +180,12 @@ def ff_family(rng, tier):
               [1, 2, 3, 3, 2], [1, 1, 1, 1, 1, 1], [1, 2, 1, 2, 1, 2], [2, 1, 1, 2, 3, 3]]
     lim = [8 + 7 * k for k in (1, 2, 3)]
 
-    def emit(order, overlap, W, place, tail0):
+    def emit(order, overlap, W, place, tail0, j=None):
         nt = max(order) + 1
         items = iter(range(3, 60))
-        progs = [[(PUSH_FF, 2)] + [(rng.choice([PUSH, PUSH_FF]), 40 + i) for i in range(tail0)]]
+        progs = [[(PUSH_FF if j is None else ffop(j), 2)] + [(rand_mark(rng, 0.5), 40 + i) for i in range(tail0)]]
         for u in range(1, nt):
-            progs.append([(PUSH_FF if rng.random() < 0.2 else PUSH, next(items)) for _ in order if _ == u])
+            progs.append([(rand_mark(rng), next(items)) for _ in order if _ == u])
         cases.append(core.fmt_case([DMAX], progs, ff_sched(order, overlap, W, place)))
 
     # sweep: which thread performs the crossing push (order[2]) x where the worker is at that moment (W3 = 5..29)
@@ -181,6 +194,13 @@ def ff_family(rng, tier):
             for place in (0, 1, 2):
                 W = [min(w3, lim[0] - (place == 2)), min(w3, lim[1]), w3]
                 emit(order, (w3 + place) % 4, W, place, 1 if w3 % 5 == 0 else 0)
+    # the same for the other table entries (in_count passes 2^k with the worker active, at every worker position)
+    for j in range(1, len(FF_K)):
+        for oi, order in enumerate(([1, 1, 1], [1, 2, 1], [1, 2, 3, 3])):
+            for w3 in range(PUSH_STEPS + FF_STEPS, lim[2] + 1):
+                place = (w3 + oi) % 3
+                W = [min(w3, lim[0] - (place == 2)), min(w3, lim[1]), w3]
+                emit(order, (w3 + j) % 4, W, place, 0, j)
     n_sweep = len(cases)
     # random triples on every order (the fast-forward may also come after the first further pushes: W1 < 5)
     per = 6 if tier == "quick" else 60
@@ -189,8 +209,35 @@ def ff_family(rng, tier):
             w1 = rng.randint(1, lim[0])
             w2 = rng.randint(w1, lim[1])
             w3 = rng.randint(max(w2, PUSH_STEPS + FF_STEPS), lim[2])
-            emit(order, rng.randrange(4), [w1, w2, w3], rng.randrange(3), rng.randrange(2))
+            emit(order, rng.randrange(4), [w1, w2, w3], rng.randrange(3), rng.randrange(2),
+                 rng.choice([None] + list(range(len(FF_K)))))
     return cases, n_sweep
+
+
+def pingpong_family():
+    """no backlog: the worker (thread 0, marked push with table entry j) takes its own item, then m - 1 times (another
+    thread pushes one item; the worker takes it): after the 3rd item out_count == in_count == 2^k exactly, after the
+    4th .. 6th 2^k + 1 .. 2^k + 3, with the worker between two get_work calls.  Then e more worker steps (0 = still
+    between the calls; 4 = it has compared the counters; up to 10 so that code with a few extra accesses per
+    get_work is also met at every point) and one more push, alone or with the worker moving after its add_and_fetch.
+    Correct code tells that push QUEUED unless the worker already retired."""
+    cases = []
+    pre = PUSH_STEPS + FF_STEPS + TAKE_STEPS
+    for j in range(len(FF_K)):
+        for m in range(3, 7):
+            for alt in (0, 1):
+                who = [1 + (i % 2 if alt else 0) for i in range(m)]        # pusher of further push i; last = final
+                nt = 3 if alt else 2
+                items = iter(range(3, 60))
+                progs = [[(ffop(j), 2)]] + [[(PUSH, next(items)) for w in who if w == u] for u in range(1, nt)]
+                body = [0] * pre
+                for u in who[:-1]:
+                    body += [u] * PUSH_STEPS + [0] * TAKE_STEPS
+                f = who[-1]
+                for e in range(0, 11):
+                    for tail in ([f] * PUSH_STEPS, [f] + [0] * 3 + [f] * (PUSH_STEPS - 1)):
+                        cases.append(core.fmt_case([DMAX], progs, body + [0] * e + tail))
+    return cases
 
 
 def gen_cases(ctx, tier):
@@ -229,8 +276,9 @@ def gen_cases(ctx, tier):
     n_b = len(cases) - b0
     # (5) fast-forward: sessions in which in_count passes 2^32 while the worker is active
     ff, n_ff_sweep = ff_family(rng, tier)
-    cases += ff
-    ctx.ff_cases = ff
+    pp = pingpong_family()
+    cases += ff + pp
+    ctx.ff_cases = ff + pp
     # (2) random programs x schedules (three styles)
     nrand = 4000 if tier == "quick" else 60000
     for _ in range(nrand):
@@ -240,7 +288,7 @@ def gen_cases(ctx, tier):
         progs = []
         for t in range(nt):
             n = rng.randint(0 if nt > 2 else 1, 5)
-            progs.append([(PUSH_FF if rng.random() < 0.2 else PUSH, items.pop()) for _ in range(n)])
+            progs.append([(rand_mark(rng), items.pop()) for _ in range(n)])
         total = sum(len(p) for p in progs)
         length = rng.randint(4, (PUSH_STEPS + TAKE_STEPS + 6) * total + 8)
         cases.append(core.fmt_case([DMAX], progs, core.random_sched(rng, nt, length, rng.randrange(3))))
@@ -249,7 +297,7 @@ def gen_cases(ctx, tier):
     for _ in range(nseq):
         n = rng.randint(1, 12)
         items = rng.sample(range(2, 1100), n)
-        cases.append(core.fmt_case([DMAX], [[(rng.choice([PUSH, PUSH, PUSH_FF]), a) for a in items]], []))
+        cases.append(core.fmt_case([DMAX], [[(rand_mark(rng, 0.35), a) for a in items]], []))
     n3 = 0
     if tier == "thorough":
         # three threads: worker + two pushers, sampled interleavings
@@ -261,6 +309,7 @@ def gen_cases(ctx, tier):
             cases.append(core.fmt_case([DMAX], [[(PUSH, 2)], p1, [(PUSH, 4)]], [0] * pre + il))
     ctx.coverage["case_distribution"] = {"exhaustive_2thread_interleavings": n_ex, "boundary": n_b,
                                          "fast_forward_sweep": n_ff_sweep, "fast_forward_random": len(ff) - n_ff_sweep,
+                                         "fast_forward_no_backlog": len(pp),
                                          "random_programs": nrand, "sequential": nseq,
                                          "sampled_3thread_interleavings": n3, "total": len(cases)}
     return cases
@@ -280,9 +329,12 @@ def run(ctx):
         st = ctx.stats["wq"]
         ffm = core.model_run("workqueue", ctx.ff_cases)
         ctx.coverage["fast_forward"] = {
-            "rule": "cases of the fast_forward family; crossing = the trace has an add_and_fetch on in_count that "
-                    "reads 2^32 (that push is number 2^32 + 1 of its session, with the first worker still active)",
-            "cases": len(ffm), "crossing_2^32": sum(1 for l in ffm if l and (" 2 55 %d " % 2 ** 32) in " " + l + " ")}
+            "rule": "cases of the fast_forward families; in_crossing[k] = the trace has an add_and_fetch on in_count "
+                    "that reads 2^k (that push is number 2^k + 1 of its session, with the first worker still active); "
+                    "out_exact[k] = the worker's out_count += 1 writes exactly 2^k",
+            "cases": len(ffm),
+            "in_crossing": {str(k): sum(1 for l in ffm if l and (" 2 55 %d " % 2 ** k) in " " + l + " ") for k in FF_K},
+            "out_exact": {str(k): sum(1 for l in ffm if l and (" 3 19 %d " % 2 ** k) in " " + l + " ") for k in FF_K}}
         ctx.coverage.update({"traces_validated_against_impl": st["cases"] - st["differ"],
                              "evaluations": st["cases"], "distinct_nontrivial": st["nontrivial"],
                              "rule": "case = (push lists per thread, schedule); non-trivial = at least one "
